@@ -85,6 +85,9 @@ BLOCK = [
     ("spawn-blocking", ["let s = tokio::task::spawn_blocking(move || {", "    std::fs::read_to_string(path)", "}).await?;"], []),
     ("block-in-place", ["let s = tokio::task::block_in_place(|| {", "    std::fs::read_to_string(path)", "});"], []),
     ("spawn-blocking-sleep", ["tokio::task::spawn_blocking(move || std::thread::sleep(delay)).await?;"], []),
+    ("spawn-blocking-nested-closure", ["let sizes = tokio::task::spawn_blocking(move || {", "    paths.iter().map(|p| std::fs::read(p).map(|b| b.len())).collect::<Vec<_>>()", "}).await?;"], []),
+    ("block-in-place-nested-closure", ["tokio::task::block_in_place(|| {", "    hosts.iter().for_each(|_| std::thread::sleep(delay));", "});"], []),
+    ("closure-outside-wrapper", ["let sizes = paths.iter().map(|p| std::fs::read(p)).collect::<Vec<_>>();"], [("blocking-async.fs-in-async", 0)]),
     ("fs-in-loop", ["for p in paths {", "    let s = std::fs::read(p)?;", "}"], [("blocking-async.fs-in-async", 1)]),
     ("plain", ["let n = compute(delay);"], []),
 ]
